@@ -1,0 +1,295 @@
+//go:build verif
+
+package fastlog
+
+import "net"
+
+// Contracts for package fastlog (C20), checked by /verif/govc.
+
+// spec_line_wf: the representation invariant of a Line.
+func spec_line_wf(l *Line) bool { return l != nil && 0 <= l.index && l.index <= bufSize }
+
+// ---------- reference renderers ----------
+
+func spec_hexdigit(x byte) byte {
+	if x < 10 {
+		return '0' + x
+	}
+	return 'a' + (x - 10)
+}
+
+// spec_ndigits: number of decimal digits of v.
+func spec_ndigits(v uint32) int {
+	switch {
+	case v < 10:
+		return 1
+	case v < 100:
+		return 2
+	case v < 1000:
+		return 3
+	case v < 10000:
+		return 4
+	case v < 100000:
+		return 5
+	case v < 1000000:
+		return 6
+	case v < 10000000:
+		return 7
+	case v < 100000000:
+		return 8
+	case v < 1000000000:
+		return 9
+	}
+	return 10
+}
+
+func spec_pow10(k int) uint32 {
+	switch k {
+	case 0:
+		return 1
+	case 1:
+		return 10
+	case 2:
+		return 100
+	case 3:
+		return 1000
+	case 4:
+		return 10000
+	case 5:
+		return 100000
+	case 6:
+		return 1000000
+	case 7:
+		return 10000000
+	case 8:
+		return 100000000
+	case 9:
+		return 1000000000
+	}
+	return 0
+}
+
+// spec_decdigit: the k-th decimal digit character of v counted from the right (k = 0 is the last).
+func spec_decdigit(v uint32, k int) byte { return '0' + byte((v/spec_pow10(k))%10) }
+
+// ---------- primitive appenders ----------
+
+//verif:props C20
+func verif_contract_fastlog_Line_appendByte(l *Line, value byte) {
+	vRequires(spec_line_wf(l) && l.index < bufSize)
+	old := l.index
+	vModifiesField(l, "index")
+	vModifiesBytes(l.buffer[old : old+1])
+	l.appendByte(value)
+	vEnsures(l.index == old+1 && l.buffer[old] == value)
+}
+
+//verif:props C20
+func verif_contract_fastlog_Line_writeHex(l *Line, value byte) {
+	vRequires(spec_line_wf(l) && l.index+2 <= bufSize)
+	old := l.index
+	vModifiesField(l, "index")
+	vModifiesBytes(l.buffer[old : old+2])
+	l.writeHex(value)
+	vEnsures(l.index == old+2)
+	vEnsures(l.buffer[old] == spec_hexdigit(value>>4) && l.buffer[old+1] == spec_hexdigit(value&0x0f))
+}
+
+//verif:props C20
+func verif_contract_fastlog_Line_writeHexNoleadingZeros(l *Line, value byte) {
+	vRequires(spec_line_wf(l) && l.index+2 <= bufSize)
+	old := l.index
+	vModifiesField(l, "index")
+	vModifiesBytes(l.buffer[old : old+2])
+	l.writeHexNoleadingZeros(value)
+	if value>>4 != 0 {
+		vEnsures(l.index == old+2 && l.buffer[old] == spec_hexdigit(value>>4) && l.buffer[old+1] == spec_hexdigit(value&0x0f))
+	} else {
+		vEnsures(l.index == old+1 && l.buffer[old] == spec_hexdigit(value&0x0f))
+	}
+}
+
+// spec_nd0: number of decimal digits still to print (0 for 0).
+func spec_nd0(v uint32) int {
+	if v == 0 {
+		return 0
+	}
+	return spec_ndigits(v)
+}
+
+// loop 1 counts the digits: (digits of n) + i stays equal to (digits of v)
+func verif_inv_fastlog_Line_printInt_1(i int, n uint32, v uint32) bool {
+	return 0 <= i && i <= 10 && spec_nd0(n)+i == spec_nd0(v)
+}
+func verif_dec_fastlog_Line_printInt_1(n uint32) int { return int(n) }
+
+// loop 2 fills the digits right to left: i - (digits left) never drops below -1
+func verif_inv_fastlog_Line_printInt_2(l *Line, i int, v uint32) bool {
+	return l != nil && l.index <= bufSize && -1 <= i && -1 <= i-spec_nd0(v) && i < l.index
+}
+func verif_dec_fastlog_Line_printInt_2(v uint32) int { return int(v) }
+
+// printInt appends exactly spec_ndigits(v) characters. (Which characters is not
+// decided here: the loop overwrites v, so the rendered value cannot be named in
+// an invariant without ghost state; Int() renders through strconv itself.)
+//
+//verif:props C20
+func verif_contract_fastlog_Line_printInt(l *Line, v uint32) *Line {
+	vRequires(spec_line_wf(l) && l.index+spec_ndigits(v) <= bufSize)
+	old := l.index
+	vModifiesField(l, "index")
+	vModifiesBytes(l.buffer[:])
+	r := l.printInt(v)
+	vEnsures(r == l && l.index == old+spec_ndigits(v))
+	return r
+}
+
+// ---------- field appenders: room and index arithmetic ----------
+
+//verif:props C20
+func verif_contract_fastlog_Line_Uint8Hex(l *Line, name string, value uint8) *Line {
+	vRequires(spec_line_wf(l) && l.index+len(name)+6 <= bufSize)
+	old := l.index
+	vModifiesField(l, "index")
+	vModifiesBytes(l.buffer[old : old+len(name)+6])
+	r := l.Uint8Hex(name, value)
+	vEnsures(r == l && l.index == old+len(name)+6)
+	vEnsures(l.buffer[old] == ' ' && l.buffer[old+1+len(name)] == '=')
+	vEnsures(l.buffer[old+len(name)+2] == '0' && l.buffer[old+len(name)+3] == 'x')
+	vEnsures(l.buffer[old+len(name)+4] == spec_hexdigit(value>>4) && l.buffer[old+len(name)+5] == spec_hexdigit(value&0x0f))
+	vEnsures(vForall(0, len(name), func(j int) bool { return l.buffer[old+1+j] == name[j] }))
+	return r
+}
+
+//verif:props C20
+func verif_contract_fastlog_Line_Uint16Hex(l *Line, name string, value uint16) *Line {
+	vRequires(spec_line_wf(l) && l.index+len(name)+8 <= bufSize)
+	old := l.index
+	vModifiesField(l, "index")
+	vModifiesBytes(l.buffer[old : old+len(name)+8])
+	r := l.Uint16Hex(name, value)
+	vEnsures(r == l && l.index == old+len(name)+8)
+	k := old + len(name) + 2
+	vEnsures(l.buffer[k] == '0' && l.buffer[k+1] == 'x')
+	vEnsures(l.buffer[k+2] == spec_hexdigit(byte(value>>12)) && l.buffer[k+3] == spec_hexdigit(byte(value>>8)&0x0f))
+	vEnsures(l.buffer[k+4] == spec_hexdigit(byte(value>>4)&0x0f) && l.buffer[k+5] == spec_hexdigit(byte(value)&0x0f))
+	return r
+}
+
+//verif:props C20
+func verif_contract_fastlog_Line_Bool(l *Line, name string, value bool) *Line {
+	n := 5
+	if value {
+		n = 4
+	}
+	vRequires(spec_line_wf(l) && l.index+len(name)+2+n <= bufSize)
+	old := l.index
+	vModifiesField(l, "index")
+	vModifiesBytes(l.buffer[old : old+len(name)+2+n])
+	r := l.Bool(name, value)
+	vEnsures(r == l && l.index == old+len(name)+2+n)
+	k := old + len(name) + 2
+	if value {
+		vEnsures(l.buffer[k] == 't' && l.buffer[k+1] == 'r' && l.buffer[k+2] == 'u' && l.buffer[k+3] == 'e')
+	} else {
+		vEnsures(l.buffer[k] == 'f' && l.buffer[k+1] == 'a' && l.buffer[k+2] == 'l' && l.buffer[k+3] == 's' && l.buffer[k+4] == 'e')
+	}
+	return r
+}
+
+//verif:props C20
+func verif_contract_fastlog_Line_MAC(l *Line, name string, value net.HardwareAddr) *Line {
+	n := 3
+	if len(value) == 6 {
+		n = 17
+	}
+	vRequires(spec_line_wf(l) && l.index+len(name)+2+n <= bufSize)
+	vRequires(!vSameRegion(value, l.buffer[:])) // the value is not a view of the line buffer itself
+	old := l.index
+	vModifiesField(l, "index")
+	vModifiesBytes(l.buffer[old : old+len(name)+2+n])
+	r := l.MAC(name, value)
+	vEnsures(r == l && l.index == old+len(name)+2+n)
+	k := old + len(name) + 2
+	if len(value) == 6 {
+		// colon separated lower-case hex, as net.HardwareAddr.String renders it
+		vEnsures(l.buffer[k] == spec_hexdigit(value[0]>>4) && l.buffer[k+1] == spec_hexdigit(value[0]&0x0f) && l.buffer[k+2] == ':')
+		vEnsures(l.buffer[k+3] == spec_hexdigit(value[1]>>4) && l.buffer[k+4] == spec_hexdigit(value[1]&0x0f) && l.buffer[k+5] == ':')
+		vEnsures(l.buffer[k+6] == spec_hexdigit(value[2]>>4) && l.buffer[k+7] == spec_hexdigit(value[2]&0x0f) && l.buffer[k+8] == ':')
+		vEnsures(l.buffer[k+9] == spec_hexdigit(value[3]>>4) && l.buffer[k+10] == spec_hexdigit(value[3]&0x0f) && l.buffer[k+11] == ':')
+		vEnsures(l.buffer[k+12] == spec_hexdigit(value[4]>>4) && l.buffer[k+13] == spec_hexdigit(value[4]&0x0f) && l.buffer[k+14] == ':')
+		vEnsures(l.buffer[k+15] == spec_hexdigit(value[5]>>4) && l.buffer[k+16] == spec_hexdigit(value[5]&0x0f))
+	} else {
+		vEnsures(l.buffer[k] == 'n' && l.buffer[k+1] == 'i' && l.buffer[k+2] == 'l')
+	}
+	return r
+}
+
+//verif:props C20
+func verif_contract_fastlog_Line_Uint8(l *Line, name string, value uint8) *Line {
+	vRequires(spec_line_wf(l) && l.index+len(name)+2+spec_ndigits(uint32(value)) <= bufSize)
+	old := l.index
+	vModifiesField(l, "index")
+	vModifiesBytes(l.buffer[:])
+	r := l.Uint8(name, value)
+	vEnsures(r == l && l.index == old+len(name)+2+spec_ndigits(uint32(value)))
+	return r
+}
+
+//verif:props C20
+func verif_contract_fastlog_Line_Uint16(l *Line, name string, value uint16) *Line {
+	vRequires(spec_line_wf(l) && l.index+len(name)+2+spec_ndigits(uint32(value)) <= bufSize)
+	old := l.index
+	vModifiesField(l, "index")
+	vModifiesBytes(l.buffer[:])
+	r := l.Uint16(name, value)
+	vEnsures(r == l && l.index == old+len(name)+2+spec_ndigits(uint32(value)))
+	return r
+}
+
+//verif:props C20
+func verif_contract_fastlog_Line_Uint32(l *Line, name string, value uint32) *Line {
+	vRequires(spec_line_wf(l) && l.index+len(name)+2+spec_ndigits(value) <= bufSize)
+	old := l.index
+	vModifiesField(l, "index")
+	vModifiesBytes(l.buffer[:])
+	r := l.Uint32(name, value)
+	vEnsures(r == l && l.index == old+len(name)+2+spec_ndigits(value))
+	return r
+}
+
+//verif:props C20
+func verif_contract_fastlog_Line_String(l *Line, name string, value string) *Line {
+	vRequires(spec_line_wf(l) && l.index+len(name)+len(value)+4 <= bufSize)
+	old := l.index
+	vModifiesField(l, "index")
+	vModifiesBytes(l.buffer[old : old+len(name)+len(value)+4])
+	r := l.String(name, value)
+	vEnsures(r == l && l.index == old+len(name)+len(value)+4)
+	vEnsures(l.buffer[old] == ' ' && l.buffer[old+1+len(name)] == '=' && l.buffer[old+2+len(name)] == '"' && l.buffer[old+3+len(name)+len(value)] == '"')
+	vEnsures(vForall(0, len(name), func(j int) bool { return l.buffer[old+1+j] == name[j] }))
+	vEnsures(vForall(0, len(value), func(j int) bool { return l.buffer[old+3+len(name)+j] == value[j] }))
+	return r
+}
+
+//verif:props C20
+func verif_contract_fastlog_Line_Label(l *Line, name string) *Line {
+	vRequires(spec_line_wf(l) && l.index+len(name)+1 <= bufSize)
+	old := l.index
+	vModifiesField(l, "index")
+	vModifiesBytes(l.buffer[old : old+len(name)+1])
+	r := l.Label(name)
+	vEnsures(r == l && l.index == old+len(name)+1)
+	return r
+}
+
+//verif:props C20
+func verif_contract_fastlog_Line_Bytes(l *Line, name string, value []byte) *Line {
+	vRequires(spec_line_wf(l) && l.index+len(name)+len(value)+2 <= bufSize)
+	old := l.index
+	vModifiesField(l, "index")
+	vModifiesBytes(l.buffer[old : old+len(name)+len(value)+2])
+	r := l.Bytes(name, value)
+	vEnsures(r == l && l.index == old+len(name)+len(value)+2)
+	return r
+}
